@@ -400,6 +400,12 @@ func (s *Store) lookupSecretInternal(ctx context.Context, name string) (Secret, 
 
 			s.active.Lock()
 			defer s.active.Unlock()
+			if _, ok := s.active.m[name]; ok {
+				// Another caller installed this secret while we were fetching. Keep
+				// that entry: replacing it here would bypass the watchers, and a
+				// newer value will be picked up (and signalled) by the next poll.
+				return s.secretLocked(name), nil
+			}
 			s.active.m[name] = &cachedSecret{Secret: sv, LastAccess: s.timeNow().Unix()}
 			if err := s.flushCacheLocked(); err != nil {
 				s.logf("WARNING: error flushing cache: %v", err)
